@@ -29,6 +29,7 @@ void COSdoInit(CO_SDO *srv, CO_NODE *node)
     uint8_t n;
 
     for (n=0; n < CO_SSDO_N; n++) {
+        srv[n].Frm = 0;
         COSdoReset (srv, n, node);
         COSdoEnable(srv, n);
     }
@@ -47,7 +48,6 @@ void COSdoReset(CO_SDO *srv, uint8_t num, CO_NODE *node)
     srvnum->Node         = node;
     srvnum->RxId         = CO_SDO_ID_OFF;
     srvnum->TxId         = CO_SDO_ID_OFF;
-    srvnum->Frm          = 0;
     srvnum->Obj          = 0;
     offset               = num * CO_SDO_BUF_BYTE;
     srvnum->Buf.Start    = &node->SdoBuf[offset];
